@@ -13,5 +13,6 @@ CONSTANTS
   Atomic = FALSE
   CallbacksUnderQueueLock = FALSE
   CountCooldowns = TRUE
-INVARIANTS TypeOK CountExact HasPeerExact NoEarlyReturn
+  FreshChannelOnWake = FALSE
+INVARIANTS TypeOK CountExact HasPeerExact NoSleepingWaiter NoEarlyReturn
 PROPERTIES WaitersWoken CancelHonoured AllReturn
